@@ -62,7 +62,12 @@ def run_batches(batches, with_model=False, env=None):
         for k, c in enumerate(cases):
             il = impl[3 + k]
             ml = model[3 + k] if model else None
-            res.append((c, S.parse_result(il), S.canon(il), S.canon(ml) if ml is not None else None))
+            ci, cm = S.canon(il), (S.canon(ml) if ml is not None else None)
+            # a panic-site LABEL the translator could not place in the current source (`unlocated:<name>`, see translator/gens/sites.py):
+            # both sides panic, where exactly is not comparable on this run
+            if cm is not None and cm.startswith('panic unlocated:') and ci.startswith('panic '):
+                ci = cm
+            res.append((c, S.parse_result(il), ci, cm))
     return res
 
 def response_bytes(c, r):
